@@ -37,6 +37,7 @@ type Call struct {
 	// Set by the plan (before the call) / by the hook (after it):
 	Inject error  // error injected instead of performing the call
 	Short  bool   // for writes: perform a short write (half the bytes) and return io.ErrShortWrite
+	Noop   bool   // for WriteAt: report success without writing anything (a file system that does not extend the file, go.dev/issue/68311)
 	Err    string // error actually returned to the caller ("" = nil)
 }
 
@@ -555,6 +556,10 @@ func FileWriteAt(site string, f *os.File, b []byte, off int64) (int, error) {
 		err := pathErr("write", fname(f), call.Inject)
 		c.after(call, err)
 		return 0, err
+	}
+	if call != nil && call.Noop {
+		c.after(call, nil)
+		return len(b), nil
 	}
 	if call != nil && call.Short && len(b) > 1 {
 		n, _ := f.WriteAt(b[:len(b)/2], off)
